@@ -105,6 +105,51 @@ m("C11","storage-delete-file-of-other","x/storage/keeper/msg_server_file_delete.
 m("C11","makeprimary-for-name","x/rns/keeper/msg_server_register.go",
   'k.SetPrimaryName(ctx, msg.Creator, name, tld)','k.SetPrimaryName(ctx, msg.Name, name, tld)',"C11/R3","rns.MsgMakePrimary:own-key")
 
+# ---- C01
+m("C01","postproof-register-before-verify","x/storage/keeper/msg_server_postproof.go",
+  """			newProver = true
+			proof = &types.FileProof{
+				Prover:       prover,
+				Merkle:       file.Merkle,
+				Owner:        file.Owner,
+				Start:        file.Start,
+				LastProven:   ctx.BlockHeight(),
+				ChunkToProve: 0,
+			}""","""			proof = file.AddProver(ctx, k, prover)""","C01/R1","verify-before-write","inverse of fix F1")
+m("C01","postproof-drop-chunk-comparison","x/storage/keeper/msg_server_postproof.go",
+  'if msg.ToProve != proof.ChunkToProve {','if msg.ToProve < 0 {',"C01/R3","challenge-match")
+m("C01","prove-ignores-valid","x/storage/types/file_deal.go",
+  """	if !valid {
+		return ErrCannotVerifyProof
+	}""","""	if !valid && chunkSize < 0 {
+		return ErrCannotVerifyProof
+	}""","C01/R2","storage.MsgPostProof:prover")
+m("C01","verify-submitted-index","x/storage/keeper/msg_server_postproof.go",
+  'err := file.Prove(ctx, proof, msg.HashList, msg.Item, chunkSize)','proof.ChunkToProve = msg.ToProve\n\terr := file.Prove(ctx, proof, msg.HashList, msg.Item, chunkSize)',"C01/R2","verifier-index")
+m("C01","verifyproof-returns-true-on-error","x/storage/types/file_deal.go",
+  """	verified, err := merkletree.VerifyProofUsing(hashName, false, &proof, [][]byte{f.Merkle}, sha3.New512())
+	if err != nil {
+		return false
+	}""","""	verified, err := merkletree.VerifyProofUsing(hashName, false, &proof, [][]byte{f.Merkle}, sha3.New512())
+	if err != nil {
+		return true
+	}""","C01/R2","storage.MsgPostProof:prover")
+m("C01","setproof-after-failed-verify","x/storage/keeper/msg_server_postproof.go",
+  """		ctx.Logger().Info(e.Error())
+		return &types.MsgPostProofResponse{Success: false, ErrorMessage: e.Error()}, nil
+	}
+
+	if newProver {""","""		ctx.Logger().Info(e.Error())
+		k.SetProof(ctx, *proof)
+		return &types.MsgPostProofResponse{Success: false, ErrorMessage: e.Error()}, nil
+	}
+
+	if newProver {""","C01/R1","verify-before-write")
+m("C01","report-handler-refreshes-proof","x/storage/keeper/msg_server_report.go",
+  'k.RemoveReport(ctx, prover, merkle, owner, start)','k.RemoveReport(ctx, prover, merkle, owner, start)\n\tk.SetProof(ctx, types.FileProof{Prover: prover, Merkle: merkle, Owner: owner, Start: start, LastProven: ctx.BlockHeight()})',"C01/R4","sets-proof-record")
+m("C01","credit-by-key-prefix","x/storage/keeper/rewards.go",
+  '(*sizeTracker)[proof.Prover] += file.FileSize','(*sizeTracker)[providerAddress] += file.FileSize',"C01/R5","rewards:credited-key")
+
 for x in M:
     d = os.path.join(os.path.dirname(os.path.abspath(__file__)), x["property"])
     os.makedirs(d, exist_ok=True)
